@@ -1,4 +1,5 @@
 import BHS.Props.C11
+import BHS.Props.SqlShape
 open BHS.Props.C11
 #print axioms C11_events
 #print axioms C11_no_event
@@ -10,3 +11,4 @@ open BHS.Props.C11
 #print axioms C11_fanout_independent
 #print axioms C11_fanout_history
 #print axioms C11_notify_site
+#print axioms BHS.Props.SqlShape.add_statements
